@@ -43,7 +43,9 @@ Fixpoint flow_replay (tol stop_eps step : float) (A0 : coo float) (ts : list tri
 Inductive c19case :=
 | CFlow (tol : float) (v : list (vec3 float)) (ts : list tri) (max_iter : nat) (stop_eps step : float)
         (Xs : list (list (vec3 float))) (outv : list (vec3 float)) (outt : list tri)
-| CProj (tol : float) (ts : list tri) (sph spatvol : float) (vn : list (vec3 float)) (obs : result (list (vec3 float))).
+| CProj (tol : float) (ts : list tri) (sph spatvol : float) (vn : list (vec3 float)) (obs : result (list (vec3 float)))
+(* eigenfunctions 1..3 as returned by the eigen-solver, observed embedding handed to the flow (or Err) and printed "spat vol" *)
+| CEmbed (tol : float) (v : list (vec3 float)) (ev1 ev2 ev3 : list float) (obs : result (list (vec3 float) * float)).
 
 Definition check_c19 (c : c19case) : list bool :=
   match c with
@@ -59,4 +61,15 @@ Definition check_c19 (c : c19case) : list bool :=
         | Err e, Err e' => err_eqb e e'
         | _, _ => false
         end ]
+  | CEmbed tol v ev1 ev2 ev3 obs =>
+      [ true; true; true; true;
+        match spectral_embedding Fops v ev1 ev2 ev3, obs with
+        | Ok e, Ok (vn, sv) => v3list_close_fl tol 1 (em_vn e) vn && flist_close_fl tol 1 [em_spatvol e] [sv]
+        | Err e, Err e' => err_eqb e e'
+        | _, _ => false
+        end ]
   end.
+
+Definition and5b (a b : list bool) : list bool := map (fun '(x, y) => x && y) (combine a b).
+Definition check_c19_multi (cs : list c19case) : list bool :=
+  fold_left (fun acc c => and5b acc (check_c19 c)) cs [true; true; true; true; true].
